@@ -43,7 +43,9 @@ QUERIES = {
     "molecule_dict": lambda c: c.molecule_dict(),
     "group_surroundings": lambda c: c.atom_group_surroundings([0, 1], radius=4.0),
     "site_props": lambda c: (c.nsites, list(c.site_labels), np.asarray(c.site_positions), str(c.space_group.symbol),
-                             [int(o.integer_code) for o in c.symmetry_operations]),
+                             [int(o.integer_code) for o in c.symmetry_operations],
+                             # the short aliases are the same objects' data as the long names
+                             np.asarray(c.uc.direct), str(c.sg.symbol), c.sg.choice, np.asarray(c.asym.positions), [int(z) for z in c.asym.atomic_numbers]),
 }
 MUTATORS = {
     "to_H": lambda c: c.choose_trigonal_lattice("H"),
